@@ -36,7 +36,7 @@ def consts_of(prog, trait):
 
 def run(ctx, rep):
     prog = ctx.program("default")
-    rep.configs.append("default")
+    rep.configs.append(getattr(ctx, "alias", "default"))
     rgb = consts_of(prog, RGBT)
     gray = consts_of(prog, GRAYT)
     rep.floor("R13", "rgb types", len(rgb), 10)
